@@ -429,6 +429,29 @@ def runConv (w : List String) : String :=
   | "chrono_dt" :: _, some [secs, millis] => toString (chronoDtToCql secs millis)
   | "cql_chrono_dt" :: _, some [ms] => let r := cqlToChronoDt ms; s!"{r.1} {r.2}"
   | "chrono_date" :: _, some [days] => toString (chronoDateToCql days)
+  | "bounds" :: _, some [] =>
+    s!"{chronoDateMinDays} {chronoDateMaxDays} {chronoDtMinMs} {chronoDtMaxMs} {timeDateMinJd} {timeDateMaxJd}"
+  | "de_chrono_date" :: _, some [d] => match deChronoDate d with
+    | some x => toString x
+    | none => "ValueOverflow"
+  | "de_time_date" :: _, some [d] => match deTimeDate d with
+    | some x => toString x
+    | none => "ValueOverflow"
+  | "de_chrono_dt" :: _, some [ms] => match deChronoDt ms with
+    | some (a, b) => s!"{a} {b}"
+    | none => "ValueOverflow"
+  | "de_time_odt" :: _, some [ms] => match deTimeOdt ms with
+    | some (a, b) => s!"{a} {b}"
+    | none => "ValueOverflow"
+  | "de_chrono_time" :: _, some [x] => match deChronoTime x with
+    | some (a, b) => s!"{a} {b}"
+    | none => "ValueOverflow"
+  | "de_time_time" :: _, some [x] => match deTimeTime x with
+    | some (h, m, s, n) => s!"{h} {m} {s} {n}"
+    | none => "ValueOverflow"
+  | "ser_chrono_time" :: _, some [secs, frac] => match chronoTimeToCql secs frac with
+    | some x => toString x
+    | none => "ValueOverflow"
   | _, _ => "bad-case"
 
 def run (case _impl : String) : String :=
